@@ -153,6 +153,27 @@ def check_sectors(ctx, sym, nd, css, duals, rng):
             if fermionic and R.par(sym, charge):
                 kw["oddpos"] = 1
             desc = {"symmetry": sym, "class": cls.__name__, "kind": kind, "charges": [list(map(repr, cs)) for cs in css], "duals": list(duals), "charge": repr(charge)}
+            hist = rng.random()
+            if hist < 0.2:
+                # history: an enumeration of the same structure that was abandoned half way
+                g0 = cls(indices=indices, charge=charge, **kw).gen_valid_sectors()
+                for _ in range(rng.randint(0, 2)):
+                    next(g0, None)
+                if rng.random() < 0.5:
+                    del g0
+                ctx.count("history", "abandoned-enumeration")
+            elif hist < 0.3:
+                # history: a fill function that fails after the first block
+                calls = []
+
+                def bad_fill(shape):
+                    calls.append(shape)
+                    if len(calls) >= 2:
+                        raise RuntimeError("fill function failed")
+                    return __import__("numpy").ones(shape)
+
+                ctx.call(lambda: cls.from_fill_fn(bad_fill, list(indices), charge, **kw))
+                ctx.count("history", "failed-fill-function")
             o = ctx.call(lambda: list(cls(indices=indices, charge=charge, **kw).gen_valid_sectors()))
             ctx.evaluated()
             ctx.count("sectors", f"{sym}:gen_valid_sectors")
